@@ -372,7 +372,14 @@ func cmdCheck(args []string) int {
 		natIdx int
 	}
 	var pend []pending
+	seenLabel := map[string]bool{}
 	for i, hv := range viols {
+		// one counterexample per (harness, label, known-finding) is reported
+		key := hv.h.Name + "|" + hv.v.Label + "|" + hv.v.KF
+		if seenLabel[key] {
+			continue
+		}
+		seenLabel[key] = true
 		rf := replayFile{Property: prop, Harness: hv.h.Name, Pkg: cfg.Pkg, HDir: cfg.HDir, Tier: tier, Label: hv.v.Label,
 			Msg: hv.v.Msg, Where: hv.v.Where, Native: hv.h.Native, Inputs: hv.v.Inputs}
 		path := filepath.Join(*verif, "replay", fmt.Sprintf("%s_%s_%d.json", prop, hv.h.Name, i))
